@@ -80,15 +80,22 @@ class Lifecycle:
         if isinstance(e, ast.Call) and isinstance(e.func, ast.Name) and e.func.id == "callable" and len(e.args) == 1:
             return given(e.args[0])
         if isinstance(e, ast.Name):
-            return given(e)
+            # the truth value of a callback that was NOT supplied (None) is False; that of a supplied one is the object's own
+            # business (a callable with __bool__ / __len__ may be falsy): both branches stay possible
+            return False if given(e) is False else None
         if isinstance(e, ast.Compare) and len(e.ops) == 1 and isinstance(e.comparators[0], ast.Constant) and e.comparators[0].value is None:
             v = given(e.left)
             if v is None:
                 return None
-            if isinstance(e.ops[0], (ast.Is, ast.Eq)):
+            if isinstance(e.ops[0], ast.Is):
                 return not v
-            if isinstance(e.ops[0], (ast.IsNot, ast.NotEq)):
+            if isinstance(e.ops[0], ast.IsNot):
                 return v
+            # `== None` / `!= None` ask the supplied object (its __eq__): decided only for the callback that was not supplied
+            if isinstance(e.ops[0], ast.Eq):
+                return True if v is False else None
+            if isinstance(e.ops[0], ast.NotEq):
+                return False if v is False else None
         return None
 
     def enter(self, ai: AbsInt, n: Node, callee: FuncInfo, st):
